@@ -15,6 +15,7 @@ mod model;
 mod rkiki;
 mod rlex;
 mod rng;
+mod runner;
 mod rvalidate;
 mod skim;
 mod util;
@@ -23,8 +24,10 @@ use coord::{CheckOptions, Engine, Tier};
 
 fn engine_for(prop: &str) -> Option<&'static dyn Engine> {
     static LALR: engines::lalr_diff::LalrDiff = engines::lalr_diff::LalrDiff;
+    static EMIT: engines::emit_run::EmitRun = engines::emit_run::EmitRun;
     match prop {
         "C04" | "C11" | "C17" => Some(&LALR),
+        "C01" | "C02" | "C03" => Some(&EMIT),
         _ => None,
     }
 }
